@@ -36,15 +36,19 @@ def plan(tier, seed):
 
 def values(ty, rng, n):
     if ty == "fr":
-        return [("r", v) for v in [0, 1, R - 1, R - 2, (R - 1) // 2, 1 << 254, (1 << 64) - 1] + [rng.randrange(R) for _ in range(n)]]
+        lp = [v for v in G.limb_compare_patterns(R, 256) if v < R]
+        return [("r", v) for v in [0, 1, R - 1, R - 2, (R - 1) // 2, 1 << 254, (1 << 64) - 1] + rng.sample(lp, min(len(lp), 2 * n)) + [rng.randrange(R) for _ in range(n)]]
     if ty == "fq12":
         out = [F.F12_ZERO, F.F12_ONE, F.f12_from_coeffs([Q - 1] * 12), F.f12_from_coeffs([0] * 11 + [1]), F.f12_from_coeffs(list(range(12)))]
         out += [F.f12_from_coeffs([rng.randrange(Q) for _ in range(12)]) for _ in range(n)]
+        lp = [v for v in G.limb_compare_patterns(Q, 384, rng, 120) if v < Q]
+        out += [F.f12_from_coeffs([rng.choice(lp) for _ in range(12)]) for _ in range(n)]
         return [("q12", v) for v in out]
     g = 1 if ty.startswith("g1") else 2
     c = E1 if g == 1 else E2
     pts = [None, g1_gen() if g == 1 else g2_gen()] + [G.subgroup_point(g, rng) for _ in range(n)]
     pts += [c.neg(p) for p in pts[2:4]]
+    pts += [P for _, P in rng.sample(G.prefix_points(g), 4)]
     out = []
     for P in pts:
         if ty.endswith("a"):
@@ -102,7 +106,7 @@ def run_shard(shard, tier, seed, wd, res):
             s.op("deser", V.s(ty), V.b(b""), V.t(cflag), V.n(0), V.n(-1))
     else:  # hostile
         if ty == "fr":
-            for v in [R, R + 1, (1 << 256) - 1, (1 << 255), R - 1, 2 * R, R + (1 << 64)] + [rng.getrandbits(256) for _ in range(40 if q else 400)]:
+            for v in [R, R + 1, (1 << 256) - 1, (1 << 255), R - 1, 2 * R, R + (1 << 64)] + G.limb_compare_patterns(R, 256) + [rng.getrandbits(256) for _ in range(40 if q else 400)]:
                 s.op("deser", V.s(ty), V.b(v.to_bytes(32, "big")), V.t(rng.random() < 0.5), V.n(rng.choice([0, 1])), V.n(-1))
         elif ty == "fq12":
             for pos in range(12):
@@ -110,6 +114,14 @@ def run_shard(shard, tier, seed, wd, res):
                     cs = [rng.randrange(Q) for _ in range(12)]
                     cs[pos] = bad
                     s.op("deser", V.s(ty), V.b(b"".join(c.to_bytes(48, "big") for c in cs)), V.t(rng.random() < 0.5), V.n(rng.choice([0, 4])), V.n(-1))
+            lp = G.limb_compare_patterns(Q, 384, rng, 120)
+            for i in range(len(lp) // 6):
+                cs = [rng.randrange(Q) for _ in range(12)]
+                for pos in rng.sample(range(12), 6):
+                    cs[pos] = lp[(6 * i + pos) % len(lp)]
+                if i % 2:
+                    cs = [c if c < Q else rng.randrange(Q) for c in cs]
+                s.op("deser", V.s(ty), V.b(b"".join(c.to_bytes(48, "big") for c in cs)), V.t(True), V.n(rng.choice([0, 4])), V.n(-1))
             for _ in range(10 if q else 100):
                 s.op("deser", V.s(ty), V.b(bytes(rng.getrandbits(8) for _ in range(576))), V.t(True), V.n(0), V.n(-1))
         else:
